@@ -27,8 +27,18 @@ use crate::prelude::max;
 /// Generates evenly spaced values within a given interval. Values generated in the half-open
 /// interval [start, stop). That is, the stop point is not included.
 pub fn arange(start: f64, stop: f64, step: f64) -> Vector {
-    let n = (stop - start) / step;
-    (0..n as usize)
+    // every point start + i * step that lies in [start, stop)
+    let mut n = ((stop - start) / step).ceil().max(0.) as usize;
+    // rounding can put the last computed point on (or past) the excluded end point
+    while n > 0 {
+        let last = start + (n - 1) as f64 * step;
+        if (step > 0. && last >= stop) || (step < 0. && last <= stop) {
+            n -= 1;
+        } else {
+            break;
+        }
+    }
+    (0..n)
         .map(|i| start as f64 + i as f64 * step)
         .collect::<Vector>()
 }
